@@ -1,7 +1,6 @@
 package nsqlookupd
 
 import (
-	"fmt"
 	"net/http"
 	"net/http/pprof"
 	"sync/atomic"
@@ -195,13 +194,7 @@ func (s *httpServer) doTombstoneTopicProducer(w http.ResponseWriter, req *http.R
 	}
 
 	s.nsqlookupd.logf(LOG_INFO, "DB: setting tombstone for producer@%s of topic(%s)", node, topicName)
-	producers := s.nsqlookupd.DB.FindProducers("topic", topicName, "")
-	for _, p := range producers {
-		thisNode := fmt.Sprintf("%s:%d", p.peerInfo.BroadcastAddress, p.peerInfo.HTTPPort)
-		if thisNode == node {
-			p.Tombstone()
-		}
-	}
+	s.nsqlookupd.DB.TombstoneProducers(topicName, node)
 
 	return nil, nil
 }
